@@ -374,30 +374,6 @@ def _c02_dup_keys(rec):
     return False
 
 
-@classifier("duplicate-import-removed-although-it-comes-first")
-def _c02_dup_imports(rec):
-    """fix_duplicate_imports removes an import that duplicates another one without regard to order or scope: an import inside a block is deleted in favour of a
-    module-level import that only runs later."""
-    b = _behaviour(rec, {"fixes.fix_duplicate_imports", "fixes._fix_duplicate_regular_imports", "fixes._fix_duplicate_from_imports", "fixes._breakout_stacked_imports"})
-    if not b:
-        return False
-    _, _, _, tb, ta = b
-    def nested(t):
-        top = set(map(id, t.body))
-        return sum(len(n.names) for n in ast.walk(t) if isinstance(n, (ast.Import, ast.ImportFrom)) and id(n) not in top)
-
-    nested_before, nested_after = nested(tb), nested(ta)
-    if nested_after < nested_before and (rec.get("detail") or {}).get("after_status") in ("exc:NameError", "exc:UnboundLocalError"):
-        return True
-    # ... or two imports that bind one name to different modules (`import collections as m` / `import textwrap as m`): the later one is dropped as a duplicate
-    bound = {}
-    for n in ast.walk(tb):
-        if isinstance(n, (ast.Import, ast.ImportFrom)):
-            for a in n.names:
-                bound.setdefault(a.asname or a.name.split(".")[0], set()).add((getattr(n, "module", None), a.name))
-    return any(len(v) > 1 for v in bound.values())
-
-
 @classifier("rule-relies-on-import-added-by-a-later-step")
 def _c02_later_import(rec):
     """implicit_defaultdict (collections), replace_sorted_heapq (heapq), the numpy rules (np) ... emit `module.name(...)` and leave the import to the later
@@ -785,3 +761,162 @@ def _c19_dup_builtin(rec):
         return False
     reserved = set(dir(_b)) | set(_k.kwlist) | set(getattr(_k, "softkwlist", [])) | {"match", "case", "type"}
     return any(isinstance(n, ast.FunctionDef) and n.name in reserved for n in ast.walk(b[3]))
+
+
+# ----------------------------------------------------------------------------------------- C18
+def _c18(rec, rules):
+    """(before, after, name, tree_before, tree_after) when the violation is attributed to one of `rules` (alone or inside a chained step)."""
+    if rec.get("kind") != "name_resolves_to_another_object":
+        return None
+    rule, before, after = _step(rec)
+    parts = set(rule[len("processing.chain["):-1].split("+")) if (rule or "").startswith("processing.chain[") else {rule}
+    if not parts & set(rules):
+        return None
+    tb, ta = _parse(before or ""), _parse(after or "")
+    if tb is None or ta is None:
+        return None
+    diff = (rec.get("detail") or {}).get("difference") or {}
+    name = None
+    if diff.get("tag"):
+        name = diff["tag"].split(":", 1)[1].split(".")[0]
+        if name == "call":
+            name = None
+    else:
+        m = re.search(r"name '(\w+)' is not defined|cannot import name '(\w+)'", diff.get("message") or "")
+        if m:
+            name = m.group(1) or m.group(2)
+    return before, after, name, tb, ta
+
+
+def _import_bindings(tree, module_level_only=False):
+    """[(bound name, source key, node)] for every import alias (a star import binds '*')."""
+    out = []
+    nodes = tree.body if module_level_only else ast.walk(tree)
+    for node in nodes:
+        if isinstance(node, ast.ImportFrom):
+            for a in node.names:
+                out.append((a.asname or a.name, (node.module, node.level, a.name), node))
+        elif isinstance(node, ast.Import):
+            for a in node.names:
+                out.append((a.asname or a.name.split(".")[0], (a.name if a.asname else a.name.split(".")[0], 0, None), node))
+    return out
+
+
+def _import_groups(tree):
+    """Runs of consecutive import statements in any statement list."""
+    for node in ast.walk(tree):
+        for field in ("body", "orelse", "finalbody"):
+            body = getattr(node, field, None)
+            if not isinstance(body, list):
+                continue
+            run = []
+            for st in body + [None]:
+                if isinstance(st, (ast.Import, ast.ImportFrom)):
+                    run.append(st)
+                else:
+                    if len(run) >= 1:
+                        yield run
+                    run = []
+
+
+@classifier("import-sorting-changes-which-binding-wins")
+def _c18_sort(rec):
+    """sort_imports orders the statements of an import group (and the aliases inside one statement) alphabetically without asking what they bind: when two of
+    them bind the same name to different things, or one of them is a star import (which may bind any name), the order decides what the name means and sorting
+    changes it. The repository's own unit test (tests/unit/test_sort_imports.py) expects exactly this reordering, so it is not repaired."""
+    c = _c18(rec, {"fixes.sort_imports"})
+    if not c:
+        return False
+    before, after, name, tb, ta = c
+    for run in _import_groups(tb):
+        bound = {}
+        star = False
+        for st in run:
+            if isinstance(st, ast.ImportFrom):
+                for a in st.names:
+                    if a.name == "*":
+                        star = True
+                    bound.setdefault(a.asname or a.name, set()).add((st.module, st.level, a.name))
+            else:
+                for a in st.names:
+                    bound.setdefault(a.asname or a.name.split(".")[0], set()).add((a.name, 0, None))
+        conflict = {n for n, srcs in bound.items() if len(srcs) > 1}
+        if (star and len(run) > 1) or conflict:
+            if name is None or star or name in conflict:
+                return True
+    return False
+
+
+@classifier("star-import-narrowed-without-a-name-bound-elsewhere")
+def _c18_star_bound_elsewhere(rec):
+    """fix_starred_imports keeps, of a star import, the names that the scope- and order-insensitive undefined-name analysis reports. A name that the star import
+    provides but that is also bound anywhere else in the module - an explicit import earlier in the file that the star import overrides, an import or assignment
+    inside a function, a parameter - counts as defined and is dropped from the narrowed import: the name then resolves to the other binding or to nothing."""
+    c = _c18(rec, {"tracing.fix_starred_imports"})
+    if not c:
+        return False
+    before, after, name, tb, ta = c
+    if name is None or not any(n == "*" for n, _, _ in _import_bindings(tb, module_level_only=True)):
+        return False
+    orig = _parse(rec.get("input") or "")  # the other binding must be the client's own, not one that an earlier step (a guessed import) added
+    if orig is None:
+        return False
+    for node in ast.walk(orig):
+        if isinstance(node, (ast.Import, ast.ImportFrom)):
+            if any((a.asname or a.name.split(".")[0]) == name for a in node.names):
+                return True
+        elif isinstance(node, ast.Name) and isinstance(node.ctx, ast.Store) and node.id == name:
+            return True
+        elif isinstance(node, ast.arg) and node.arg == name:
+            return True
+        elif isinstance(node, (ast.FunctionDef, ast.AsyncFunctionDef, ast.ClassDef)) and node.name == name:
+            return True
+    return False
+
+
+@classifier("hoisted-import-meets-a-star-provided-name")
+def _c18_hoist_star(rec):
+    """move_imports_to_toplevel checks the explicit bindings of the module before moving an import up (out of a function, or from below the first definition),
+    but not what the module's star imports provide: `from pathlib import PurePath` inside a method is moved to module level where `from helpers import *` (helpers defines PurePath) binds the same
+    name, and one of the two now shadows the other."""
+    c = _c18(rec, {"fixes.move_imports_to_toplevel"})
+    if not c:
+        return False
+    before, after, name, tb, ta = c
+    if not any(n == "*" for n, _, _ in _import_bindings(tb)):  # a star import anywhere at module scope (also inside try / if blocks)
+        return False
+    diff = (rec.get("detail") or {}).get("difference") or {}
+    if not diff.get("tag") and diff.get("status_after") not in ("exc:AttributeError", "exc:TypeError"):
+        return False  # the name stays bound (to the other object): a NameError / ImportError / SyntaxError is another mechanism
+    # imports that the rule moved: nested ones, and module-level ones below the first definition
+    first_def = min((st.lineno for st in tb.body if isinstance(st, (ast.FunctionDef, ast.AsyncFunctionDef, ast.ClassDef))), default=10 ** 9)
+    moved_before = {n for n, _, node in _import_bindings(tb) if node not in tb.body or node.lineno > first_def}
+    top_after = {n for n, _, _ in _import_bindings(ta, module_level_only=True)}
+    if name is None:
+        return bool(moved_before & top_after)
+    return name in moved_before and name in top_after
+
+
+@classifier("name-provided-by-several-star-imports")
+def _c18_several_stars(rec):
+    """trace_origin attributes a name to the last star import (by line) that provides it, and fix_starred_imports narrows per module: when several star-imported
+    modules provide the same name and the code between them uses it, the earlier provider is narrowed without the name (or removed) and the use in between
+    resolves to another module's object."""
+    c = _c18(rec, {"tracing.fix_starred_imports"})
+    if not c:
+        return False
+    before, after, name, tb, ta = c
+    if name is None:
+        return False
+    stars = [node.module for n, _, node in _import_bindings(tb, module_level_only=False) if n == "*" and node.module and not node.level]
+    if len(set(stars)) < 2:
+        return False
+    world = (rec.get("detail") or {}).get("world") or {}
+    providers = 0
+    for mod in set(stars):
+        text = world.get(mod.replace(".", "/") + ".py") or world.get(mod.replace(".", "/") + "/__init__.py")
+        if text is None:
+            continue
+        if re.search(r"(?<![A-Za-z0-9_])" + re.escape(name) + r"(?![A-Za-z0-9_])", text) or re.search(r"import \*", text):
+            providers += 1
+    return providers >= 2
